@@ -83,6 +83,34 @@ def run_c09(c):
     return out
 
 
+def run_flow(c):
+    """retrieve_flow of both search classes on a field of n boreholes"""
+    import ghedesigner.search_routines as sr
+    from ghedesigner.enums import FlowConfigType
+    out = []
+    for cls in (sr.Bisection1D, sr.RowWiseModifiedBisectionSearch):
+        s = object.__new__(cls)
+        s.V_flow = c["v"]
+        s.flow_type = FlowConfigType.BOREHOLE if c["type"] == "BOREHOLE" else FlowConfigType.SYSTEM
+        coords = [(float(i), 0.0) for i in range(c["n"])]
+        vs, mb = s.retrieve_flow(coords, c["rho"])
+        out.append([vs, mb])
+    return {"ok": True, "res": out}
+
+
+def run_pair(c):
+    """the same field simulated with flow given per borehole (v) and for the system (N v)"""
+    from ghedesigner.enums import TimestepType
+    res = []
+    n = c.get("nx", 2) * c.get("ny", 2)
+    for flow in (["BOREHOLE", c["v"]], ["SYSTEM", c["v"] * n]):
+        g = build(dict(c, flow=flow))
+        mx, mn = g.simulate(method=TimestepType.HYBRID)
+        res.append({"m_flow": g.bhe.m_flow_borehole, "rb": float(g.bhe.calc_effective_borehole_resistance()), "max": mx, "min": mn,
+                    "rho": g.bhe.fluid.rho, "v_bh": g.V_flow_borehole})
+    return {"ok": True, "pair": res, "n": n}
+
+
 if __name__ == "__main__":
     p = read_payload()
     out = []
@@ -90,6 +118,10 @@ if __name__ == "__main__":
         try:
             if p.get("mode", "c09") == "c09":
                 out.append(dict(run_c09(c), ok=True))
+            elif p["mode"] == "flow":
+                out.append(run_flow(c))
+            elif p["mode"] == "pair":
+                out.append(run_pair(c))
         except Exception as ex:
             import traceback
             out.append({"ok": False, "exc": type(ex).__name__, "msg": traceback.format_exc()[-600:]})
